@@ -1,6 +1,7 @@
 package mon
 
 import (
+	"fmt"
 	"math/big"
 	"strings"
 	"time"
@@ -10,6 +11,7 @@ import (
 	"verifharness/gen"
 	"verifharness/model"
 
+	mintv3 "github.com/chain4energy/c4e-chain/x/cfeminter/migrations/v3"
 	minttypes "github.com/chain4energy/c4e-chain/x/cfeminter/types"
 )
 
@@ -42,6 +44,10 @@ type c02Block struct {
 func runC02(c *fw.Case) {
 	if c.Index%16 == 11 {
 		longHorizonProbe(c, "C02")
+		return
+	}
+	if c.Index%16 == 13 {
+		c02MigrationProbe(c)
 		return
 	}
 	mc := gen.Minters(c.R, gen.MintDenom(c.R), 36)
@@ -88,6 +94,10 @@ func runC02(c *fw.Case) {
 	c.Sample(map[string]interface{}{"config": strings.Join(mc.Desc, ""), "params": mc.Describe(), "partitions": nPart, "final_cum": finals[0].String(), "first_partition_blocks": sample})
 }
 
+// c02BeforeBlock, when set by a probe, runs before block i of a partition (on the
+// committed state of the previous block); returning false ends the case.
+var c02BeforeBlock func(c *fw.Case, n *chain.Node, i int) bool
+
 func c02RunPartition(c *fw.Case, mc gen.MinterConfig, times []time.Time, pi int) (cum *big.Int, crossedPeriod, crossedStep, multiJump bool, blocks []c02Block) {
 	n, err := chain.NewNode(chain.GenesisSpec{Time: gen.Epoch, Minter: minterGenesis(mc.Params, gen.Epoch)})
 	if err != nil {
@@ -108,7 +118,10 @@ func c02RunPartition(c *fw.Case, mc gen.MinterConfig, times []time.Time, pi int)
 			periodEnds[p.End.UnixNano()] = true
 		}
 	}
-	for _, t := range times {
+	for bi, t := range times {
+		if c02BeforeBlock != nil && !c02BeforeBlock(c, n, bi) {
+			return nil, false, false, false, nil
+		}
 		before := n.App.BankKeeper.GetSupply(n.Ctx(), denom).Amount.BigInt()
 		res, err := n.BeginBlock(t)
 		if err != nil {
@@ -221,3 +234,76 @@ func timesStr(ts []time.Time) []string {
 }
 
 var _ = minttypes.ModuleName
+
+// c02MigrationProbe: the emission must keep following the schedule across the v2 -> v3
+// parameter migration of the minter (part of the v1.2.0 upgrade). A chain runs a generated
+// configuration - period ids starting at 1..8, stored in any order - for some blocks; then
+// its parameters are put back into the x/params subspace in the previous format (the minter
+// state stays where it is), the repository's MigrateParams runs, and the remaining blocks
+// of the partition are compared with the same schedule.
+func c02MigrationProbe(c *fw.Case) {
+	mc := gen.Minters(c.R, gen.MintDenom(c.R), 36)
+	if c.R.Intn(2) == 0 && mc.FirstID == 1 {
+		by := uint32(1 + c.R.Intn(7))
+		for _, m := range mc.Sorted {
+			m.SequenceId += by
+		}
+		mc.FirstID += by
+	}
+	horizon := mc.Horizon(c.R)
+	bounds := mc.Schedule.Boundaries(horizon, 40)
+	c.Describe("migration", strings.Join(mc.Desc, ""), mc.Describe(), mc.FirstID)
+	times := gen.Partition(c.R, gen.Epoch, horizon, bounds, c.R.Intn(5), 40)
+	if len(times) < 3 {
+		return
+	}
+	at := 1 + c.R.Intn(len(times)-1)
+	migrated := false
+	c02BeforeBlock = func(c *fw.Case, n *chain.Node, i int) bool {
+		if i != at {
+			return true
+		}
+		ctx := n.Ctx()
+		app := n.App
+		stored := app.CfeminterKeeper.GetParams(ctx)
+		legacy := minttypes.MinterConfig{StartTime: stored.StartTime}
+		for _, m := range stored.Minters {
+			lm := &minttypes.LegacyMinter{SequenceId: m.SequenceId, EndTime: m.EndTime}
+			switch cfg := m.Config.GetCachedValue().(type) {
+			case *minttypes.LinearMinting:
+				lm.Type, lm.LinearMinting = minttypes.LinearMintingType, cfg
+			case *minttypes.ExponentialStepMinting:
+				lm.Type, lm.ExponentialStepMinting = minttypes.ExponentialStepMintingType, cfg
+			default:
+				lm.Type = minttypes.NoMintingType
+			}
+			legacy.Minters = append(legacy.Minters, lm)
+		}
+		var err error
+		func() {
+			defer func() {
+				if rec := recover(); rec != nil {
+					err = fmt.Errorf("panic: %v", rec)
+				}
+			}()
+			ms := app.GetSubspace(minttypes.ModuleName)
+			if !ms.HasKeyTable() {
+				ms = ms.WithKeyTable(minttypes.ParamKeyTable())
+			}
+			ms.Set(ctx, minttypes.KeyMintDenom, stored.MintDenom)
+			ms.Set(ctx, minttypes.KeyMinterConfig, legacy)
+			ctx.KVStore(app.GetKey(minttypes.StoreKey)).Delete(minttypes.ParamsKey)
+			err = mintv3.MigrateParams(ctx, app.GetKey(minttypes.StoreKey), ms, app.AppCodec())
+		}()
+		if err != nil {
+			c.ViolateD("C02/params-migration-failed", map[string]string{"params": mc.Describe()}, "the v2 -> v3 parameter migration of a valid emission configuration failed before block %d: %v", i, err)
+			return false
+		}
+		migrated = true
+		c.Count("params_migrations_mid_schedule", 1)
+		return true
+	}
+	defer func() { c02BeforeBlock = nil }()
+	cum, _, _, _, _ := c02RunPartition(c, mc, times, 0)
+	c.Nontrivial(migrated && cum != nil && cum.Sign() > 0 && c.NViol() == 0)
+}
